@@ -3,6 +3,8 @@
 
   reset                                   → ok          (empty store, empty script cache; switches unchanged)
   refused                                 → the names of `Lua.refusedNames`, joined by `|`
+  cfg depthlimit <n>                      → ok          (reply-depth limit of the return-value conversion, 0 = none: `ret`, `eval`, `evalsha` then answer
+                                                         the error reply for a value nested deeper)
   quirks <name>=<0|1> …                   → ok          (the `Lua.Quirks` switches the `code` answers use; default: `Quirks.code`)
   ksquirks <name>=<0|1> …                 → ok          (the `KS.Quirks` switches of the key-space machine)
   cmd <db> <now> <arg-hex>…               → <reply>     (a direct command on the model store)
@@ -193,6 +195,8 @@ structure St where
   kq : KS.Quirks := {}
   s : KS.Store := KS.emptyStore
   cache : Cache := []
+  /-- reply-depth limit of `lua_value_to_resp` (0 = none); sent by lib/c12.py from the regenerated fact -/
+  limit : Nat := 0
 
 def answer (st : St) (run : Quirks → KS.Store × Frame) : St × String :=
   let (s', r) := run st.q
@@ -205,6 +209,10 @@ def step (st : St) (ws : List String) : St × String :=
   match ws with
   | ["reset"] => ({ st with s := KS.emptyStore, cache := [] }, "ok")
   | ["refused"] => (st, String.intercalate "|" refusedNames)
+  | ["cfg", "depthlimit", n] =>
+    match n.toNat? with
+    | some n => ({ st with limit := n }, "ok")
+    | none => (st, "bad-op")
   | "quirks" :: kvs =>
     match kvs.foldlM setQuirk st.q with
     | some q => ({ st with q := q }, "ok")
@@ -235,8 +243,9 @@ def step (st : St) (ws : List String) : St × String :=
   | "ret" :: toks =>
     match readVal toks with
     | some (v, []) =>
-      (st, showReply (luaToResp st.q v) ++ " # " ++ showReply (luaToResp Quirks.spec v) ++ " # " ++
-        tagsOf st.q fun q => showReply (luaToResp q v))
+      let conv := fun (q : Quirks) => if st.limit = 0 then luaToResp q v else (luaToRespD q st.limit v 0).getD stackLimitErr
+      (st, showReply (conv st.q) ++ " # " ++ showReply (conv Quirks.spec) ++ " # " ++
+        tagsOf st.q fun q => showReply (conv q))
     | _ => (st, "bad-op")
   | ["env", h] =>
     match ofHex h with
@@ -246,7 +255,7 @@ def step (st : St) (ws : List String) : St × String :=
     match db.toNat?, now.toNat?, parseHexList ks, parseHexList as, parseProgram prog with
     | some db, some now, some ks, some as, some p =>
       if db ≥ 16 then (st, "bad-op") else
-      answer st fun q => eval q st.kq st.s db now ks as p
+      answer st fun q => if st.limit = 0 then eval q st.kq st.s db now ks as p else evalB q st.kq st.limit st.s db now ks as p
     | _, _, _, _, _ => (st, "bad-op")
   | "load" :: sha :: prog =>
     match ofHex sha, parseProgram prog with
@@ -256,7 +265,11 @@ def step (st : St) (ws : List String) : St × String :=
     match db.toNat?, now.toNat?, ofHex sha, parseHexList ks, parseHexList as with
     | some db, some now, some sha, some ks, some as =>
       if db ≥ 16 then (st, "bad-op") else
-      answer st fun q => evalsha q st.kq st.cache st.s db now sha ks as
+      answer st fun q =>
+        if st.limit = 0 then evalsha q st.kq st.cache st.s db now sha ks as else
+        match cacheGet st.cache sha with
+        | none => (st.s, noScript)
+        | some p => evalB q st.kq st.limit st.s (if q.evalshaDb0 then 0 else db) now ks as p
     | _, _, _, _, _ => (st, "bad-op")
   | _ => (st, "bad-op")
 
